@@ -262,7 +262,37 @@ def rule_noninterf(ctx):
     yield ob(R, k, "melody.to_cent_voicing:pipeline", good, "both sides: hz2cents(freq_to_voicing(freq, voicing)[0], base_frequency)")
 
 
+def rule_rotaterows(ctx):
+    """rotate_bitmaps_to_roots rotates every row by *its own* root through rotate_bitmap_to_root (one call per
+    (bitmap, root) pair of zip(bitmaps, roots), results collected in order) - no batched roll that can spill between rows."""
+    R = "C09.ROTATEROWS"
+    f = ctx.program.func("chord.rotate_bitmaps_to_roots", R)
+    s = ctx.S.get(f.qual)
+    need(len(s.returns) == 1, R, "rotate_bitmaps_to_roots: single return expected")
+    calls = [c for c in s.calls() if c.callee == "chord.rotate_bitmap_to_root"]
+    good = len(calls) == 1 and len(calls[0].args) == 2 and all(a.op == "iter" and a.a[0].op == "param" for a in calls[0].args) and [a.a[0].a[0] for a in calls[0].args] == ["bitmaps", "roots"] and calls[0].args[0].a[1] == calls[0].args[1].a[1]
+    t = s.returns[0].term
+    collected = any(x is calls[0].term for x in tm.walk(t)) if calls else False
+    yield ob(R, f, "chord.rotate_bitmaps_to_roots:per-row", good and collected, "row i is rotate_bitmap_to_root(bitmaps[i], roots[i])" if good and collected else "rows are not rotated one by one by rotate_bitmap_to_root(bitmap, its own root): %s" % tm.show(t, 4), node=s.returns[0].node)
+    g = ctx.program.func("chord.rotate_bitmap_to_root", R)
+    sg = ctx.S.get(g.qual)
+    one_d = any(a.kind == "assert" and any(x.op == "attr" and x.a[1] == "ndim" for x in tm.walk(a.d.get("cond"))) for a in sg.by_kind("assert"))
+    yield ob(R, g, "chord.rotate_bitmap_to_root:single-row", one_d, "rotate_bitmap_to_root asserts a one-dimensional bitmap, so an index shift never crosses rows")
+
+
+def rule_encodepure_shared(ctx):
+    """Shared with C10.TABLESAFE: the encoding of a label does not depend on labels encoded before it (no module table
+    or cached template is written in place), so a transposed or respelled progression is encoded independently of history."""
+    from . import c10
+
+    for o in c10.rule_tablesafe(ctx):
+        o.rule = "C09.ENCODEPURE"
+        yield o
+
+
 RULES = [
+    ("C09.ROTATEROWS", 2, rule_rotaterows),
+    ("C09.ENCODEPURE", 9, rule_encodepure_shared),
     ("C09.PITCHTABLES", 6, rule_pitchtables),
     ("C09.ROOTEQONLY", 16, rule_rooteqonly),
     ("C09.KEYDIFFONLY", 2, rule_keydiffonly),
